@@ -109,20 +109,25 @@ Theorem C43_unsubscribed_name_not_requested : forall rs t n,
 Proof. exact not_named_without_watchers. Qed.
 Print Assumptions C43_unsubscribed_name_not_requested.
 
-(* History statement, PARTIAL.  Full statement (in a comment because only part is proved):
-     forall cfg ops, exists obs, run cfg ops = Some obs /\ holds_b cfg ops obs = true
-   where holds_b = clauses 1, 2, 3, 5, 6.  Proved: the per-watcher clauses 2 (no duplicate
-   ResourceChanged) and 3 (AmbientError only while holding a valid resource, ResourceError only
-   while holding none), which look at each watcher's own complete callback history, hold on every
-   trace of the model, for every op list of any length and every interleaving of
-   watch/cancel/responses/stream failures/expiry.  Not proved: that the model's traces satisfy
-   clauses 1, 5, 6 (justification of each callback by the op, request names, connection errors);
-   those are evaluated on the implementation's traces by every check, and their per-resource
-   content is what the theorems above state. *)
-Theorem C43_holds_on_every_model_trace_partial : forall cfg ops,
-  exists obs, run cfg ops = Some obs /\ holds_A ops obs = true.
-Proof. exact model_trace_holds_A. Qed.
-Print Assumptions C43_holds_on_every_model_trace_partial.
+(* History statement.  [clauses] is what every check evaluates on the implementation's trace:
+   pass A looks at each watcher's own complete callback history (clause 2: no ResourceChanged for
+   the update it already holds unless a NACK intervened; clause 3: AmbientError only while it
+   holds a valid resource, ResourceError for a rejected update / connection failure only while it
+   holds none); pass B tracks watcher -> resource from the ops (clause 1: every callback is
+   justified by the op - ResourceChanged only with a valid resource of the response or, on a new
+   watch, the resource a peer watcher holds, delivered first; NACK errors only for an invalid
+   entry; 'does not exist' only for a resource missing from a SotW response without
+   ignore_resource_deletion, or on expiry; nothing on cancel or on ops not applied; clause 5:
+   every request lists exactly the names that have a watcher; clause 6: a stream failing before
+   any response gives every watcher exactly one connection error, after a response none).
+   For every configuration and every op list, of any length, ALL these clauses hold on the
+   model's own trace (two inductive invariants linking model state and monitor state:
+   watcher's view = resource cache / error state; watcher -> resource map = resource's watcher
+   set). *)
+Theorem C43_holds_on_every_model_trace : forall cfg ops,
+  exists obs, run cfg ops = Some obs /\ holds_b cfg ops obs = true.
+Proof. exact model_trace_holds. Qed.
+Print Assumptions C43_holds_on_every_model_trace.
 
 (* non-vacuity: watcher 0 gets a resource, a second watcher joins and is replayed it, a NACK
    gives both an AmbientError, the SotW removal a ResourceError *)
